@@ -180,12 +180,12 @@ def gen_groups(ctx):
                 body = ops[k:-1]
                 for j in range(0, len(body), 8192):
                     add(kind, (h, ops[:k] + body[j:j + 8192] + ["SNAP"]))
-            add(kind, ddgen.case_ite("x", kind, order, rng, 60000 if thorough else 9000))
+            add(kind, ddgen.case_ite("x", kind, order, rng, 60000 if thorough else 7000))
         # the exhaustive suite of one operator under 2 and 8 workers as well
         op = rng.choice(ddgen.BIN_OPS)
         add(kind, ddgen.case_pairs("x", kind, rng.choice(ddgen.PERMS3), op,
-                                   sample=None if thorough else 12000, rng=rng), threads=(1, 2, 8, (4, 0), (4, 12)))
-        for _ in range(120 if thorough else 12):
+                                   sample=None if thorough else 8000, rng=rng), threads=(1, 2, 8, (4, 0), (4, 12)))
+        for _ in range(120 if thorough else 9):
             # ZBDD: the set-family interface (subset0/1, change, union, ...) as well -- its single-threaded and
             # multi-threaded function types are separate wrappers
             from checks import C09
